@@ -92,10 +92,10 @@ Proof.
 Qed.
 
 (* SendMDNSQuery / SendLLMNRQuery in full: frame and question *)
-Lemma dns_name_ok name : bytes_ok name -> (length name <= 250)%nat -> bytes_ok (dns_name name).
+Lemma dns_name_ok name : bytes_ok name -> (length name <= 254)%nat -> bytes_ok (dns_name name).
 Proof.
   unfold dns_name. intros Hb Hl.
-  assert (G : forall s cur, bytes_ok s -> bytes_ok cur -> (length s + length cur <= 250)%nat -> bytes_ok (labels_aux s cur)).
+  assert (G : forall s cur, bytes_ok s -> bytes_ok cur -> (length s + length cur <= 254)%nat -> bytes_ok (labels_aux s cur)).
   { induction s as [|x r IH]; intros cur Hs Hc Hlen.
     - cbn [labels_aux]. destruct cur; [oks|]. apply bytes_ok_app. split; [cbn [length] in *; oks|].
       apply bytes_ok_app. split; [|oks]. unfold bytes_ok in *. apply Forall_rev. exact Hc.
@@ -118,45 +118,79 @@ Proof.
     + eapply Nat.le_trans; [apply IH|]. cbn [length]. lia.
 Qed.
 
-Lemma mdns_query_wf c name :
-  mac_ok (host_mac c) -> ip4_ok (host_ip4 c) -> bytes_ok name -> (length name <= 250)%nat ->
-  Forall label_ok (split_dots name []) ->
-  exists fr, send_mdns_query c name = Ok [fr] /\
-    wf_udp4 (host_mac c) (mac_of_mcast4 [224;0;0;251]) (host_ip4 c) [224;0;0;251] 5353 5353
-      (wf_dns_query None (split_dots name []) 255 255) true fr = true.
+(* the model's segment splitter is the spec's *)
+Lemma dot_segments_spec s : forall cur, dot_segments s cur = split_dots s cur.
+Proof. induction s as [|x r IH]; intros cur; cbn [dot_segments split_dots]; [reflexivity|]. rewrite !IH. reflexivity. Qed.
+
+Lemma is_root_spec name : is_root name = true -> name = [46].
 Proof.
-  intros H1 H2 Hb Hl HF.
-  assert (Hlen : (length (dns_name name) <= 1400)%nat).
-  { unfold dns_name. pose proof (labels_aux_len_le name []) as HL. cbn [length] in HL. unfold bytes, byte in *. lia. }
-  destruct (mdns_query_frame c name H1 H2 (dns_name_ok name Hb Hl) Hlen) as (fr & E & W).
+  destruct name as [|x [|y r]]; cbn [is_root]; try discriminate. intros H. apply N.eqb_eq in H. subst. reflexivity.
+Qed.
+
+(* what dnsmessage accepts, in terms of the spec: length, labels of 1..63 bytes *)
+Lemma pack_ok_labels name : dns_pack_ok name = true -> is_root name = false ->
+  (length name <= 254)%nat /\ Forall label_ok (split_dots name []).
+Proof.
+  unfold dns_pack_ok. intros H Hr. rewrite Hr in H. cbn [orb] in H.
+  apply andb_true_iff in H. destruct H as [H HD]. apply andb_true_iff in H. destruct H as [H HC].
+  apply andb_true_iff in H. destruct H as [HA HB].
+  split; [apply Nat.leb_le; exact HA|].
+  rewrite <- dot_segments_spec. apply Forall_forall. intros l Hl.
+  rewrite forallb_forall in HD. specialize (HD l Hl).
+  unfold seg_ok in HD. apply andb_true_iff in HD. destruct HD as [A B].
+  apply Nat.leb_le in A. apply Nat.leb_le in B. unfold label_ok. lia.
+Qed.
+
+Lemma query_labels_nonroot name : is_root name = false -> query_labels name = split_dots name [].
+Proof. unfold query_labels, is_root. intros ->. reflexivity. Qed.
+
+(* SendMDNSQuery / SendLLMNRQuery over ALL names: a name dnsmessage accepts (<= 254 bytes, final dot, labels of
+   1..63 bytes, or the root) is sent and decodes back to exactly its labels; every other name is refused *)
+Lemma dns_query_sent c name qt (send : cfg -> bytes -> res (list bytes)) dmac dip port :
+  (forall c name, mac_ok (host_mac c) -> ip4_ok (host_ip4 c) -> dns_pack_ok name = true ->
+     bytes_ok (dns_wire_name name) -> (length (dns_wire_name name) <= 1400)%nat ->
+     exists fr, send c name = Ok [fr] /\
+       wf_udp4 (host_mac c) dmac (host_ip4 c) dip port port (beq (dns_query 0 0 (dns_wire_name name) qt 255)) true fr = true) ->
+  qt < 65536 ->
+  mac_ok (host_mac c) -> ip4_ok (host_ip4 c) -> bytes_ok name -> dns_pack_ok name = true ->
+  exists fr, send c name = Ok [fr] /\
+    wf_udp4 (host_mac c) dmac (host_ip4 c) dip port port (wf_dns_query None (query_labels name) qt 255) true fr = true.
+Proof.
+  intros Hframe Hqt H1 H2 Hb Hpk.
+  assert (Hwire : bytes_ok (dns_wire_name name) /\ (length (dns_wire_name name) <= 1400)%nat /\
+                  wf_dns_query None (query_labels name) qt 255 (dns_query 0 0 (dns_wire_name name) qt 255) = true).
+  { unfold dns_wire_name. destruct (is_root name) eqn:Er.
+    - apply is_root_spec in Er. subst name. split; [oks|]. split; [cbn; lia|].
+      unfold wf_dns_query, dns_query, query_labels. cbn -[hi8 lo8].
+      change (hi8 0) with 0. change (lo8 0) with 0. change (hi8 255) with 0. change (lo8 255) with 255.
+      unfold w16, be16. cbn [nth]. unfold hi8, lo8. rewrite be16_hi_lo by lia. rewrite !N.eqb_refl. reflexivity.
+    - destruct (pack_ok_labels name Hpk Er) as [Hl HF]. split; [apply dns_name_ok; auto; lia|]. split.
+      + unfold dns_name. pose proof (labels_aux_len_le name []) as HL. cbn [length] in HL. unfold bytes, byte in *. lia.
+      + rewrite query_labels_nonroot by exact Er. apply dns_query_decodes; auto; lia. }
+  destruct Hwire as (Hw1 & Hw2 & Hw3).
+  destruct (Hframe c name H1 H2 Hpk Hw1 Hw2) as (fr & E & W).
   exists fr. split; [exact E|].
   unfold wf_udp4 in *. destruct (ref_decode fr) as [[d s et l3]|]; [|discriminate].
   destruct l3 as [| tos id ff ttl proto a b l4 |]; try discriminate.
   destruct l4 as [| p1 p2 ck pl |]; try discriminate.
-  destruct (beq (dns_query 0 0 (dns_name name) 255 255) pl) eqn:Eb.
-  - apply beq_eq in Eb. subst pl. rewrite dns_query_decodes by (auto; lia). exact W.
+  destruct (beq (dns_query 0 0 (dns_wire_name name) qt 255) pl) eqn:Eb.
+  - apply beq_eq in Eb. subst pl. rewrite Hw3. exact W.
   - rewrite !andb_false_r in W. cbn in W. rewrite ?andb_false_r in W. discriminate.
 Qed.
 
+Lemma mdns_query_wf c name :
+  mac_ok (host_mac c) -> ip4_ok (host_ip4 c) -> bytes_ok name -> dns_pack_ok name = true ->
+  exists fr, send_mdns_query c name = Ok [fr] /\
+    wf_udp4 (host_mac c) (mac_of_mcast4 [224;0;0;251]) (host_ip4 c) [224;0;0;251] 5353 5353
+      (wf_dns_query None (query_labels name) 255 255) true fr = true.
+Proof. apply (dns_query_sent c name 255 send_mdns_query); [exact mdns_query_frame|lia]. Qed.
+
 Lemma llmnr_query_wf c name :
-  mac_ok (host_mac c) -> ip4_ok (host_ip4 c) -> bytes_ok name -> (length name <= 250)%nat ->
-  Forall label_ok (split_dots name []) ->
+  mac_ok (host_mac c) -> ip4_ok (host_ip4 c) -> bytes_ok name -> dns_pack_ok name = true ->
   exists fr, send_llmnr_query c name = Ok [fr] /\
     wf_udp4 (host_mac c) (mac_of_mcast4 [224;0;0;252]) (host_ip4 c) [224;0;0;252] 5355 5355
-      (wf_dns_query None (split_dots name []) 12 255) true fr = true.
-Proof.
-  intros H1 H2 Hb Hl HF.
-  assert (Hlen : (length (dns_name name) <= 1400)%nat).
-  { unfold dns_name. pose proof (labels_aux_len_le name []) as HL. cbn [length] in HL. unfold bytes, byte in *. lia. }
-  destruct (llmnr_query_frame c name H1 H2 (dns_name_ok name Hb Hl) Hlen) as (fr & E & W).
-  exists fr. split; [exact E|].
-  unfold wf_udp4 in *. destruct (ref_decode fr) as [[d s et l3]|]; [|discriminate].
-  destruct l3 as [| tos id ff ttl proto a b l4 |]; try discriminate.
-  destruct l4 as [| p1 p2 ck pl |]; try discriminate.
-  destruct (beq (dns_query 0 0 (dns_name name) 12 255) pl) eqn:Eb.
-  - apply beq_eq in Eb. subst pl. rewrite dns_query_decodes by (auto; lia). exact W.
-  - rewrite !andb_false_r in W. cbn in W. rewrite ?andb_false_r in W. discriminate.
-Qed.
+      (wf_dns_query None (query_labels name) 12 255) true fr = true.
+Proof. apply (dns_query_sent c name 12 send_llmnr_query); [exact llmnr_query_frame|lia]. Qed.
 
 (* ---------------------------------------------------------------- *)
 (* NBNS: encodeNBNSName produces the RFC 1001 first-level encoding of the 16-byte padded name *)
@@ -244,6 +278,7 @@ Lemma nbns_query_wf c sm si dm di seq name junk :
     wf_udp4 (host_mac c) dm si di 137 137 (wf_dns_query (Some seq) [nb_label name] 32 1) false fr = true.
 Proof.
   intros H1 H2 H3 H4 Hs Hb Hl HJ. unfold send_nbns_query.
+  destruct (Nat.ltb_spec 16 (length name)) as [Hx|_]; [lia|].
   destruct (nbns_name_ok name Hb Hl) as [Hok Hlen].
   destruct (nbns_wf c sm si dm di (dns_query seq 0 (nbns_name name) 32 1) junk) as (fr & E & W); auto.
   - apply dns_query_ok; auto; lia.
@@ -274,3 +309,8 @@ Proof.
     replace (nb_label [42]) with (nb_label nbns_star) by (vm_compute; reflexivity).
     apply nbns_query_decodes; auto; lia.
 Qed.
+
+(* a name that does not fit the 16 octets of a NetBIOS name is refused (since fix 6d50a23; it used to be cut to 15) *)
+Lemma nbns_query_refuses c src dst seq name junk :
+  (16 < length name)%nat -> send_nbns_query c src dst seq name junk = Ok [].
+Proof. intros H. unfold send_nbns_query. destruct (Nat.ltb_spec 16 (length name)); [reflexivity|lia]. Qed.
